@@ -748,6 +748,65 @@ def xupgr(ctx):
     return M.finish(ctx, rule=ENG_RULE, evs=evs)
 
 
+# ---- HttpCtx.tla: the context of one HTTP request (types/http-context.go), on which "exactly one response" rests
+HCTX_INV = "TypeOK C11_OneResponse C11_AttemptIsFinal C11_OneCloseEvent C11_CloseMeansDone"
+HCTX_DEVS = [("FlushOnSuccess", "C11_OneResponse"), ("FlushOnSuccess", "C11_AttemptIsFinal"), ("NoGuard", "C11_OneResponse"), ("EmitTwice", "C11_OneCloseEvent")]
+
+
+def hctx_cfg(maxops, inv=HCTX_INV, dev="{}", view=True, live=True):
+    return ("SPECIFICATION FairSpec\nCONSTANTS MaxOps = %d Deviations = %s\n%sINVARIANTS %s\n%sCHECK_DEADLOCK FALSE\n"
+            % (maxops, dev, "VIEW view\n" if view and not live else "", inv, "PROPERTY L_Closes\n" if live else ""))
+
+
+def hctx_run(ctx):
+    """model-check HttpCtx.tla (safety and the liveness of the watcher), check that each deviation violates its invariant and replay
+    its counterexample, replay every transition on a real types.HttpContext with the state compared at every settled point."""
+    q = ctx.quick
+    n = 4 if q else 6
+    M.tlc_model(ctx, "HttpCtx", hctx_cfg(n), "hctx")
+    sens, devbehs = {}, []
+    for dev, inv in HCTX_DEVS:
+        ok = M.tlc_expect_violation(ctx, "HttpCtx", hctx_cfg(4, inv=inv, dev='{"%s","fullhist"}' % dev, live=False), "hctx_dev_%s_%s" % (dev, inv), inv)
+        sens["%s/%s" % (dev, inv)] = ok
+        if ok and ctx.last_counterexample:
+            devbehs.append(ctx.last_counterexample)
+    ctx.extra["http_context_deviations_detected"] = sens
+    if not all(sens.values()):
+        raise M.Inconclusive("HttpCtx.tla is not sensitive to %s" % [k for k, v in sens.items() if not v])
+    d = M.tlc_dir(ctx, "g_hctx")
+    M.write_cfg(d, "g", hctx_cfg(n, inv="TypeOK", view=False, live=False).replace("FairSpec", "Spec"))
+    rc, out = M.sh(["tlc", "-workers", "4", "-metadir", os.path.join(d, "meta"), "-dump", "dot,actionlabels", os.path.join(d, "graph"),
+                    "-config", "g.cfg", "HttpCtx.tla"], cwd=d, timeout=900)
+    if rc == 124 or "Model checking completed. No error" not in out:
+        raise M.Inconclusive("state graph dump of HttpCtx.tla failed (see %s)" % d)
+    outp = os.path.join(ctx.work, "cover_hctx.json")
+    rc, o2 = M.sh([sys.executable, os.path.join(M.ROOT, "tools", "tcover.py"), os.path.join(d, "graph.dot"), outp, "45", "0", "httpctx"], timeout=900)
+    if rc != 0:
+        raise M.Inconclusive("tcover failed for HttpCtx: %s" % o2[-500:])
+    info = json.loads(o2.strip().splitlines()[-1])
+    os.remove(os.path.join(d, "graph.dot"))
+    shutil.rmtree(os.path.join(d, "meta"), ignore_errors=True)
+    ctx.extra.setdefault("transition_cover", {})["http_context"] = info
+    ctx.states += info["states"]
+    ctx.transitions += info["transitions"]
+    behs = devbehs + json.load(open(outp))
+    ctx.extra["behaviours_replayed"] = ctx.extra.get("behaviours_replayed", 0) + len(behs)
+    trace, summ = M.go_family(ctx, "hctx", behaviours=behs, timeout=3000)
+    v, lines = M.tlc_trace(ctx, "EioMon", MON_EIO_CFG, "hctx", trace, timeout=3000)
+    ctx.traces += summ.get("stats", {}).get("scenarios", 0)
+    ctx.events += lines
+    return v, M.read_trace(trace)
+
+
+@prop("XHCTX")
+def xhctx(ctx):
+    """development aid: ./check XHCTX   - the HttpCtx.tla pipeline alone"""
+    v, evs = hctx_run(ctx)
+    M.classify(ctx, v)
+    ctx.assumptions = ENG_ASSUME
+    return M.finish(ctx, rule=ENG_RULE, evs=evs)
+
+
 @prop("XCONS")
 def xcons(ctx):
     """development aid: ./check XCONS   - the Construct.tla pipeline alone"""
@@ -757,10 +816,14 @@ def xcons(ctx):
     return M.finish(ctx, rule=ENG_RULE, evs=evs)
 
 
-def eng_prop(pid, fams, extra=(), nq=60, nt=900, race=False, reg=False, cons=False, upgr=False):
+def eng_prop(pid, fams, extra=(), nq=60, nt=900, race=False, reg=False, cons=False, upgr=False, hctx=False):
     @prop(pid)
     def f(ctx):
         evs = eng_run(ctx, fams, nq, nt, extra)
+        if hctx:
+            v, hevs = hctx_run(ctx)
+            M.classify(ctx, v)
+            evs = evs + hevs
         if upgr:
             v, uevs = upgr_run(ctx)
             M.classify(ctx, v)
@@ -811,7 +874,7 @@ def c07(ctx):
     return M.finish(ctx, rule="timed heartbeat model Beat.tla checked exhaustively over a grid of pong delays incl. the deadline; real sessions "
                     "(polling and websocket, revisions 3 and 4, 9 interval/timeout pairs) driven on the same grid under the virtual clock", evs=evs)
 eng_prop("C08", ["upg"], extra=("direct",), nq=90, upgr=True)
-eng_prop("C11", ["poll", "dreq"], extra=("direct",), nq=90)
+eng_prop("C11", ["poll", "dreq"], extra=("direct",), nq=90, hctx=True)
 eng_prop("C12", ["life", "poll"], extra=("grace", "direct"), reg=True)
 eng_prop("C18", ["flow"], extra=("reent", "direct"), nq=90)
 
